@@ -6,6 +6,7 @@ import (
 	"encoding/json"
 	"fmt"
 	"os"
+	"strings"
 
 	"github.com/lidofinance/dc4bc/client/api/dto"
 	"github.com/lidofinance/dc4bc/client/services/node"
@@ -33,6 +34,12 @@ type origMaterial struct {
 	Shares    map[string]string // name -> share (nil if unknown)
 	GroupKey  []byte
 }
+
+// reinitRestarts: where the restored machines are stopped and reopened from their databases (the
+// password lifetime expires, or the operator shuts the laptop): "" never, "before-reinit" between
+// restoring the machine and the reinit operation, "after-reinit" between the reinit operation
+// and the first signing batch.
+var reinitRestarts = ""
 
 // reinitAndCheck performs the reinitialisation procedure with fresh nodes / fresh machines and
 // judges the outcome against the original material.
@@ -78,6 +85,24 @@ func reinitAndCheck(r *kit.Run, om origMaterial, label string, adapt bool, strip
 			viol("adaptation-failed", err.Error())
 			return
 		}
+	}
+	restartAll := func(when string) bool {
+		for i, a := range w2.Airs {
+			if err := a.Restart(); err != nil {
+				viol("restored-machine-cannot-be-reopened/"+when, fmt.Sprintf("machine %d (%s), stopped %s and reopened from its database with the operator's password: %v", i, om.Names[i], when, err))
+				return false
+			}
+			// HowTo: run replay_operations_log once after a restart (nothing is logged yet
+			// before the reinit operation)
+			if err := a.M.ReplayOperationsLog(re.DKGID); err != nil && !strings.Contains(err.Error(), "operation log not found") {
+				viol("restored-machine-cannot-replay/"+when, fmt.Sprintf("machine %d (%s), reopened %s: replaying its operation log fails: %v", i, om.Names[i], when, err))
+				return false
+			}
+		}
+		return true
+	}
+	if reinitRestarts == "before-reinit" && !restartAll(reinitRestarts) {
+		return
 	}
 	payload, _ := json.Marshal(re)
 	if err := w2.Nodes[0].Svc.ReInitDKG(&dto.ReInitDKGDTO{ID: re.DKGID, Payload: payload}); err != nil {
@@ -136,6 +161,9 @@ func reinitAndCheck(r *kit.Run, om origMaterial, label string, adapt bool, strip
 		}
 	}
 	_ = want
+	if reinitRestarts == "after-reinit" && !restartAll(reinitRestarts) {
+		return
+	}
 	// machines: same share as originally, on the polynomial the nodes retain
 	var gk []byte
 	for i, a := range w2.Airs {
@@ -269,6 +297,20 @@ func c20(tier string, args []string) int {
 		reinitAndCheck(r, lastOM, "recorded ceremony, machines restored with the mnemonic entered twice (set_seed run two times)", false, false)
 		world.MnemonicEntries = 1
 		scen++
+	}
+	// the restored machines are stopped and reopened (password expiry / shutdown) before and after
+	// the reinit operation
+	if lastOM.Round != "" {
+		for _, when := range []string{"before-reinit", "after-reinit"} {
+			for _, entries := range []int{1, 2} {
+				reinitRestarts = when
+				world.MnemonicEntries = entries
+				reinitAndCheck(r, lastOM, fmt.Sprintf("recorded ceremony, restored machines (mnemonic entered %d time(s)) reopened %s", entries, when), false, false)
+				scen++
+			}
+		}
+		reinitRestarts = ""
+		world.MnemonicEntries = 1
 	}
 	// the repository's authentic 0.1.4 log
 	repoRoot := os.Getenv("VERIF_REPO")
